@@ -34,15 +34,28 @@ func TestC17(t *testing.T) {
 				resident = append(resident, b)
 			}
 			f.settle()
+			// FetchBlob with several mirrors: a list that ends in a dead mirror, starts with one, or has two good ones
+			type pathVar struct{ path, mirrors string }
+			var pvs []pathVar
 			for _, path := range writePaths {
+				pvs = append(pvs, pathVar{path, ""})
+				if strings.HasPrefix(path, "fetch") {
+					pvs = append(pvs, pathVar{path, "dead-last"}, pathVar{path, "dead-first"}, pathVar{path, "two-good"})
+				}
+			}
+			for _, pv := range pvs {
 				rep.Eval()
+				path := pv.path
 				before := disk.VfSnapshot(f.cache)
-				d := vlib.Bytes(fmt.Sprintf("c17/%s/%d/%s/big", mode, hard, path), 2*blk-200, false)
+				d := vlib.Bytes(fmt.Sprintf("c17/%s/%d/%s%s/big", mode, hard, path, pv.mirrors), 2*blk-200, false)
 				wire := d
 				if pathIsZstd(path) {
 					wire = vlib.ZstdEncode(d)
 				}
-				u := upReq{path: path, hash: vlib.Sha(d), size: int64(len(d)), wire: wire, abortAfter: -1}
+				u := upReq{path: path, hash: vlib.Sha(d), size: int64(len(d)), wire: wire, abortAfter: -1, mirrors: pv.mirrors}
+				if pv.mirrors != "" {
+					path = path + "[" + pv.mirrors + "]"
+				}
 				if strings.HasPrefix(path, "splice") {
 					// the chunks are two resident blobs: the spliced result needs two more blocks
 					d = append(append([]byte(nil), resident[0].data...), resident[1].data...)
